@@ -42,7 +42,8 @@ def recvN (n : Nat) : List RecvItem → RecvRes × List RecvItem
 
 /-- outcome of one `_packet_read()` call -/
 inductive ReadOut where
-  | again                          -- MQTT_ERR_AGAIN
+  | again                          -- MQTT_ERR_AGAIN (would block)
+  | againBusy                      -- MQTT_ERR_AGAIN after 100 body reads in one call (`_last_msg_in` is refreshed)
   | connLost                       -- MQTT_ERR_CONN_LOST
   | protocol                       -- MQTT_ERR_PROTOCOL (more than 4 length bytes)
   | complete (cmd : Nat) (body : Bytes)   -- a whole packet: handed to `_packet_handle`
@@ -63,7 +64,7 @@ def readBody : (count : Nat) → RState → List RecvItem → RState × List Rec
           let r := { r with toProcess := r.toProcess - d.length, packet := r.packet ++ d }
           if count = 0 then
             -- `count -= 1; if count == 0: return MQTT_ERR_AGAIN` (even if the packet just became complete)
-            (r, q, .again)
+            (r, q, .againBusy)
           else readBody count r q
 
 /-- phase 2: the remaining-length bytes (`while True` loop; ends by `break`, AGAIN, error, or > 4 bytes) -/
